@@ -1,12 +1,173 @@
 /-
-  C12 — property theorems only.
+  C12 — property theorems only (proofs in Lemmas*.lean and NdnVerif/C03/Lemmas*.lean; the
+  hypothesis bundles used between proof files are instantiated here, nothing is assumed except the
+  cryptography, which appears ONLY as explicit hypotheses of the theorems: `Scheme.Correct`,
+  `Scheme.ExactOn`, `hinj`).
+
+  Model: NdnVerif/C03 (encoder offset markers → sigCovered / digest input; parser `reader.Range` →
+  signed portion; `checkInterest`).  Spec: NdnVerif/C12/Spec.lean.
 -/
-import NdnVerif.C03.Parse
-import NdnVerif.C03.Spec
+import NdnVerif.C03.LemmasEnc
+import NdnVerif.C12.LemmasC12
+import NdnVerif.C12.LemmasTamperInt
+import NdnVerif.C03.Examples
 namespace Ndn.C12
 open Ndn.C03
 
-/-- placeholder while the proofs are being built -/
-theorem fixSigShrink_zero (est : Nat) : fixSigShrink est est = 0 := by simp [fixSigShrink]
+/-! ### signer and parser cover the same bytes, so the matching validator accepts -/
+
+/-- Data, every packet shape, every healthy reader (contiguous or any segmentation): the signed
+    portion reported by the parser equals the bytes handed to the signer; the signature value and
+    type come back; a correct validator accepts. -/
+theorem covered_enc_eq_dec_data (sch : Scheme) (hc : sch.Correct) (d : DataIn) (e : Encoded) (r : Rd)
+    (hv : d.Valid) (hest : d.est > 0) (hm : makeData d sch.sign = .ok e) (hr : At r e.wire.flatten 0) :
+    ∃ p cov, readData r = .ok (p, cov) ∧ e.sigCovered = some cov ∧ p.sv = some (sch.sign cov)
+      ∧ p.si = d.si ∧ ∀ t, (d.si.map (·.typ)) = some t → verdict sch t (p.si.map (·.typ)) cov p.sv = true :=
+  covered_enc_eq_dec_data_E encSpecs sch hc d e r hv hest hm hr
+
+theorem covered_enc_eq_dec_interest (sch : Scheme) (hc : sch.Correct) (i : InterestIn) (H : Bytes → Bytes) (e : Encoded)
+    (fn : Name) (r : Rd) (hv : i.Valid) (hH : ∀ x, (H x).length = 32) (hest : i.est > 0)
+    (hm : makeInterest i sch.sign H = .ok (e, fn)) (hr : At r e.wire.flatten 0) :
+    ∃ p cov, readInterest H r = .ok (p, cov) ∧ e.sigCovered = some cov ∧ p.sv = some (sch.sign cov)
+      ∧ p.si = i.si ∧ ∀ t, (i.si.map (·.typ)) = some t → verdict sch t (p.si.map (·.typ)) cov p.sv = true :=
+  covered_enc_eq_dec_interest_E encSpecs sch hc i H e fn r hv hH hest hm hr
+
+/-- the bytes handed to the signer are the signed portion the NDN packet format prescribes:
+    Data: Name … SignatureInfo; Interest: name components before the digest, ApplicationParameters,
+    InterestSignatureInfo -/
+theorem covered_is_signed_portion :
+    (∀ (d : DataIn) (sign : Bytes → Bytes) (e : Encoded), d.Valid → d.est > 0 → makeData d sign = .ok e →
+        e.sigCovered = some (dataCovered d) ∧ ∃ tl, e.wire.flatten = tl ++ dataCovered d ++ (encTL 23 ++ encTL e.sigVal.length ++ e.sigVal))
+    ∧ (∀ (i : InterestIn) (sign H : Bytes → Bytes) (e : Encoded) (fn : Name), i.Valid → (∀ x, (H x).length = 32) → i.est > 0 →
+        makeInterest i sign H = .ok (e, fn) → e.sigCovered = some (interestCovered i)) := by
+  refine ⟨?_, ?_⟩
+  · intro d sign e hv hest hm
+    obtain ⟨hfl, hs, _⟩ := encSpecs.makeData_flatten d sign e hv hm
+    refine ⟨(hs hest).2.1, encTL 6 ++ encTL (dataValue d e.sigVal).length, ?_⟩
+    rw [hfl]; simp [dataValue, dataCovered, hest, List.append_assoc]
+  · intro i sign H e fn hv hH hest hm
+    exact ((encSpecs.makeInterest_flatten i sign H e fn hv hH hm).2.2.1 hest).2.1
+
+/-! ### parameters digest -/
+
+theorem params_digest_correct (i : InterestIn) (sign H : Bytes → Bytes) (e : Encoded) (fn : Name)
+    (hv : i.Valid) (hH : ∀ x, (H x).length = 32) (hap : i.ap.isSome) (hm : makeInterest i sign H = .ok (e, fn)) :
+    fn.getLast? = some ⟨2, H (interestParamsPortion i e.sigVal)⟩
+    ∧ (∃ pre, e.wire.flatten = pre ++ interestParamsPortion i e.sigVal)
+    ∧ ∀ r, At r e.wire.flatten 0 → ∃ p cov, readInterest H r = .ok (p, cov) ∧ p.name = some fn :=
+  params_digest_correct_E encSpecs i sign H e fn hv hH hap hm
+
+theorem bad_digest_rejected (H : Bytes → Bytes) (s : InterestSt) (hap : s.v.ap.isSome)
+    (hbad : ∀ n c, s.v.name = some n → n.getLast? = some c → c.val ≠ H s.digestCovered) :
+    checkInterest H s = false :=
+  bad_digest_rejected_thm H s hap hbad
+
+theorem bad_digest_rejected_onWire (i : InterestIn) (H : Bytes → Bytes) (sv v : Bytes) (r : Rd)
+    (hap : i.ap.isSome) (hv : v ≠ H (interestParamsPortion i sv))
+    (hr : InterestReady i (stripDigest i.name ++ [⟨2, v⟩]) sv)
+    (h : At r (interestValue i (stripDigest i.name ++ [⟨2, v⟩]) sv) 0) :
+    ∃ fs, parseInterest {} r = .ok fs ∧ checkInterest H fs = false :=
+  bad_digest_rejected_packet encSpecs i H sv v r hap hv hr h
+
+/-! ### tampering is detected (byte-range content proved; cryptography assumed) -/
+
+/-- Data: change ANY byte inside the signed portion or the signature value (in particular flip any
+    bit there). Over every healthy reader, decoding fails or the (signed portion, signature value)
+    pair reported differs from the pair the signer produced — hence, under A-crypto (`ExactOn`),
+    the validator rejects. -/
+theorem bitflip_detected (sch : Scheme) (d : DataIn) (e : Encoded) (hv : d.Valid)
+    (hm : makeData d sch.sign = .ok e) (hest : d.est > 0) (hx : sch.ExactOn (dataCovered d))
+    (b' : Bytes) (k : Nat) (hlen : b'.length = e.wire.flatten.length)
+    (hk : b'.getD k 0 ≠ e.wire.flatten.getD k 0) (hsame : ∀ j, j ≠ k → b'.getD j 0 = e.wire.flatten.getD j 0)
+    (hreg : (1 + tlLen (dataValue d e.sigVal).length ≤ k
+              ∧ k < 1 + tlLen (dataValue d e.sigVal).length + (dataCovered d).length)
+            ∨ (e.wire.flatten.length - e.sigVal.length ≤ k ∧ k < e.wire.flatten.length))
+    (r : Rd) (hr : At r b' 0) (t : Nat) :
+    (∀ x, readData r ≠ .ok x) ∨ ∃ p cov, readData r = .ok (p, cov) ∧ verdict sch t (p.si.map (·.typ)) cov p.sv = false := by
+  cases hrd : readData r with
+  | ok x =>
+    right
+    obtain ⟨p, cov⟩ := x
+    refine ⟨p, cov, rfl, ?_⟩
+    have hneg := bitflip_detected_data_all encSpecs d sch.sign e hv hm hest b' k hlen hk hsame hreg r hr p cov hrd
+    cases hsv : p.sv with
+    | none => simp [verdict]
+    | some v =>
+      cases hver : sch.verify cov v with
+      | false => simp [verdict, hver]
+      | true =>
+        exfalso
+        obtain ⟨h1, h2⟩ := hx cov v hver
+        apply hneg
+        obtain ⟨_, hs, _⟩ := encSpecs.makeData_flatten d sch.sign e hv hm
+        exact ⟨h1, by rw [hsv, (hs hest).1, h2]⟩
+  | err => left; intro x h; cases h
+  | panic m => left; intro x h; cases h
+  | alloc => left; intro x h; cases h
+  | oom => left; intro x h; cases h
+
+/-- Interest with parameters (signed or not): change ANY byte from the first byte of the
+    ApplicationParameters element to the end of the Interest (parameters, SignatureInfo, signature
+    value). If SHA-256 has no collision with the original digest input, decoding fails. -/
+theorem bitflip_detected_interest (i : InterestIn) (sign H : Bytes → Bytes) (e : Encoded) (fn : Name)
+    (hv : i.Valid) (hH : ∀ x, (H x).length = 32) (hm : makeInterest i sign H = .ok (e, fn)) (hap : i.ap.isSome)
+    (hinj : ∀ x, H x = H (interestParamsPortion i e.sigVal) → x = interestParamsPortion i e.sigVal)
+    (b' : Bytes) (k : Nat) (hlen : b'.length = e.wire.flatten.length)
+    (hk : b'.getD k 0 ≠ e.wire.flatten.getD k 0) (hsame : ∀ j, j ≠ k → b'.getD j 0 = e.wire.flatten.getD j 0)
+    (hreg : e.wire.flatten.length - (interestParamsPortion i e.sigVal).length ≤ k ∧ k < e.wire.flatten.length)
+    (r : Rd) (hr : At r b' 0) : ∀ x, readInterest H r ≠ .ok x :=
+  bitflip_detected_interest_digest_all encSpecs i sign H e fn hv hH hm hap hinj b' k hlen hk hsame hreg r hr
+
+/-- signed Interest: change ANY byte inside the name components the signature covers (all
+    components before the parameters digest). Decoding fails, or the signed portion reported differs
+    from what was signed, so under A-crypto (`ExactOn`) the validator rejects. -/
+theorem bitflip_detected_interest_name_sig (sch : Scheme) (i : InterestIn) (H : Bytes → Bytes) (e : Encoded) (fn : Name)
+    (hv : i.Valid) (hH : ∀ x, (H x).length = 32) (hm : makeInterest i sch.sign H = .ok (e, fn)) (hest : i.est > 0)
+    (hx : sch.ExactOn (interestCovered i))
+    (b' : Bytes) (k : Nat) (hlen : b'.length = e.wire.flatten.length)
+    (hk : b'.getD k 0 ≠ e.wire.flatten.getD k 0) (hsame : ∀ j, j ≠ k → b'.getD j 0 = e.wire.flatten.getD j 0)
+    (hreg : 1 + tlLen (interestValue i fn e.sigVal).length + 1 + tlLen (nameLen fn) ≤ k
+      ∧ k < 1 + tlLen (interestValue i fn e.sigVal).length + 1 + tlLen (nameLen fn)
+            + (encNameInner (stripDigest i.name)).length)
+    (r : Rd) (hr : At r b' 0) (t : Nat) :
+    (∀ x, readInterest H r ≠ .ok x) ∨ ∃ p cov, readInterest H r = .ok (p, cov) ∧ verdict sch t (p.si.map (·.typ)) cov p.sv = false := by
+  cases hrd : readInterest H r with
+  | ok x =>
+    right
+    obtain ⟨p, cov⟩ := x
+    refine ⟨p, cov, rfl, ?_⟩
+    have hneg := bitflip_detected_interest_name_all encSpecs i sch.sign H e fn hv hH hm hest b' k hlen hk hsame hreg r hr p cov hrd
+    cases hsv : p.sv with
+    | none => simp [verdict]
+    | some v =>
+      cases hver : sch.verify cov v with
+      | false => simp [verdict, hver]
+      | true =>
+        exfalso
+        obtain ⟨h1, h2⟩ := hx cov v hver
+        apply hneg
+        obtain ⟨_, _, hs, _⟩ := encSpecs.makeInterest_flatten i sch.sign H e fn hv hH hm
+        exact ⟨h1, by rw [hsv, (hs hest).1, h2]⟩
+  | err => left; intro x h; cases h
+  | panic m => left; intro x h; cases h
+  | alloc => left; intro x h; cases h
+  | oom => left; intro x h; cases h
+
+/-! ### non-vacuity: the C03 example packets (`exData` with est 300 / 200-byte signature, `exInterest`
+    signed with parameters) meet the hypotheses; a tampered copy of the right length exists -/
+
+set_option maxRecDepth 100000 in
+example : exData.Valid ∧ exData.est > 0 ∧ ∃ e, makeData exData exSign = .ok e := ⟨exData_valid, by decide, ⟨_, rfl⟩⟩
+example : exInterest.Valid ∧ exInterest.ap.isSome ∧ exInterest.est > 0
+    ∧ ∃ e fn, makeInterest exInterest exSign32 exHash = .ok (e, fn) := ⟨exInterest_valid, rfl, by decide, ⟨_, _, rfl⟩⟩
+/-- the A-crypto hypotheses are satisfiable (each theorem uses only ONE of them: `Correct` for
+    acceptance of the untampered packet, `ExactOn m` — during the run nothing but the pair produced
+    for the one signed message `m` verifies — for rejection of tampered ones) -/
+example : ∃ sch : Scheme, sch.Correct := ⟨⟨fun m => m, fun m v => m == v⟩, by intro m; simp [Scheme.Correct]⟩
+example : ∃ sch : Scheme, sch.ExactOn [1, 2, 3] :=
+  ⟨⟨fun m => m, fun m v => m == [1, 2, 3] && v == [1, 2, 3]⟩, by
+    intro m v h
+    simp at h
+    exact ⟨h.1, h.2⟩⟩
 
 end Ndn.C12
